@@ -491,17 +491,22 @@ def make_tag_contracts():
 
         ensures = {'accept<=>in_domain': lambda pre, post: Iff(returned(post), tag_ok(pre.args[0]))}
     out.append(TagCheck)
-    for n in (0, 1, 2):
+    for n in (0, 1, 2, 'N'):
         for entry in ('ctor_varargs', 'ctor_list', 'from_json'):
+            if n == 'N' and entry == 'ctor_varargs':
+                continue          # an argument tuple of unknown length is outside the loop rule (lists only)
+
             class TagsEntry(Contract):
                 target = 'fim.slivers.tags:Tags.__init__'
                 extra_targets = ('fim.slivers.tags:Tags._check', 'fim.slivers.tags:Tags.from_json', 'fim.slivers.tags:Tags.to_json')
                 props = ('C16', 'C03')
                 _n = n
                 _entry = entry
-                bounded = f'tag list of length {n} (lists are checked up to length 2)'
+                bounded = None if n == 'N' else f'tag list of length {n} (lists are checked up to length 2)'
 
                 def inputs(self, g):
+                    if self._n == 'N':
+                        return [g.genlist('t')], {}       # ANY length: loop rule with a copy statement (pyvc.interp.gen_loop)
                     tags = [g.text(f't{i}') for i in range(self._n)]
                     return [PList(tags)], {}
 
